@@ -58,7 +58,7 @@ impl Hilbert {
 impl Block for Hilbert {
     fn work(&mut self) -> Result<BlockRet> {
         debug_assert_eq!(self.ntaps, self.history.len());
-        let (ii, tags) = self.src.read_buf()?;
+        let (ii, mut tags) = self.src.read_buf()?;
         let i = ii.slice();
         if i.is_empty() {
             return Ok(BlockRet::WaitForStream(&self.src, 1));
@@ -93,6 +93,9 @@ impl Block for Hilbert {
             *val = Complex::new(iv[i + self.ntaps / 2], self.filter.filter_float(t));
         });
 
+        // Only the tags of the samples actually processed. The rest stay with
+        // their samples in the input stream.
+        tags.retain(|t| t.pos() < n);
         oo.produce(n, &tags);
 
         self.history[..self.ntaps].clone_from_slice(&iv[n..len]);
